@@ -111,8 +111,9 @@ long long c_combi(int n, int k)
     long long ans=1;
     int j=1;
 
-    /* Skip if number  is too high */
-    if(k>30 || n-k>30){
+    /* Skip if number  is too high, or if there is no such combination
+     * (with n or k negative, n-k can overflow) */
+    if(n<0 || k<0 || k>30 || n-k>30){
         return -1;
     }
 
